@@ -2,7 +2,10 @@
 
 package vf
 
-import "fmt"
+import (
+	"fmt"
+	"strings"
+)
 
 func init() {
 	RegisterCheck(&CheckDef{ID: "C16", Level: "model_checking", Run: runC16})
@@ -60,7 +63,11 @@ func runC16(r *Run) {
 	}
 	args = nil
 	for v := range clientSets {
-		args = append(args, schedArg{Scenario: "clients", Variant: v, Bounds: schedBounds{Preempt: pre}, Budget: budget})
+		cb := budget
+		if !r.Thorough() {
+			cb = 2 * budget // the pool-sharing scenarios have the most choice points; give bound 1 room to complete under load
+		}
+		args = append(args, schedArg{Scenario: "clients", Variant: v, Bounds: schedBounds{Preempt: pre}, Budget: cb})
 	}
 	r.RunTaskGroup(fmt.Sprintf("independent clients sharing the pools, preemption bound %d", pre), "sched", args)
 	reportBounds(r, pre)
@@ -166,6 +173,11 @@ func reportBounds(r *Run, requested int) {
 	minDone := requested
 	for k, v := range r.Counters {
 		var b int
+		if strings.HasPrefix(k, "capped: ") {
+			fmt.Printf("    %s\n", k)
+			delete(r.Counters, k)
+			continue
+		}
 		if n, _ := fmt.Sscanf(k, "scenarios_completed_bound_%d", &b); n == 1 {
 			hist[fmt.Sprint(b)] = v
 			if b < minDone {
